@@ -7,6 +7,7 @@ import (
 	"fmt"
 	"net"
 	"net/url"
+	"runtime"
 	"strings"
 	"sync"
 	"sync/atomic"
@@ -21,6 +22,7 @@ func init() {
 	commands["c14-results"] = c14Results
 	commands["c14-entry"] = c14Entry
 	commands["c14-pool"] = c14Pool
+	commands["c14-poolnew"] = c14PoolNew
 	commands["c14-dns"] = c14Dns
 }
 
@@ -92,7 +94,13 @@ func c14Dns(e *env) {
 	})
 }
 
+// c14Flaky: whether the name "flaky" resolves (it does while the pool is being made)
+var c14Flaky atomic.Bool
+
 func c14Lookup(_ context.Context, network, host string) ([]net.IP, error) {
+	if host == "flaky" && c14Flaky.Load() {
+		return []net.IP{net.IPv4(10, 9, 8, 7)}, nil
+	}
 	switch host {
 	case "known":
 		if network == "ip4" {
@@ -542,6 +550,59 @@ function FindProxyForURL(url, host) {
 	res := map[string]any{"evals": evals.Load(), "fails": fails.Load(), "bad": bad.Load(), "ok": bad.Load() == 0}
 	if v := firstBad.Load(); v != nil {
 		res["why"] = v
+	}
+	e.emit(res)
+}
+
+// c14PoolNew: the script's top level resolves a name and keeps the answer. Every VM of the pool runs the top level for
+// itself; once the name has stopped resolving no further VM can be made. The evaluations that get an idle VM answer as
+// before, the others fail - each for itself (PacPool.tla GetFail) - and the process goes on.
+func c14PoolNew(e *env) {
+	script := `
+var site = dnsResolve("flaky").split(".");
+function FindProxyForURL(url, host) {
+  var x = 0; for (var i = 0; i < 200000; i++) { x += i % 7; }
+  return "PROXY " + site.join(".") + ":3128";
+}`
+	c14Flaky.Store(true)
+	pool, err := pac.NewProxyResolverPool(pac.VerifConfig(script, c14Lookup, nil, nil), nil)
+	if err != nil {
+		fatal("pool: %v", err)
+	}
+	u, _ := url.Parse("http://example.test/")
+	first, err := pool.FindProxyForURL(u, "")
+	if err != nil || first != "PROXY 10.9.8.7:3128" {
+		fatal("first evaluation: %q %v", first, err)
+	}
+	c14Flaky.Store(false)
+	var wg sync.WaitGroup
+	var evals, answered, failed, wrong atomic.Int64
+	for g := 0; g < 8; g++ {
+		wg.Add(1)
+		go func() {
+			defer wg.Done()
+			for i := 0; i < 20; i++ {
+				got, err := pool.FindProxyForURL(u, "")
+				evals.Add(1)
+				switch {
+				case err != nil:
+					failed.Add(1)
+				case got == first:
+					answered.Add(1)
+				default:
+					wrong.Add(1)
+				}
+				if i == 10 {
+					runtime.GC()
+					runtime.GC() // idle VMs are dropped
+				}
+			}
+		}()
+	}
+	wg.Wait()
+	res := map[string]any{"ok": wrong.Load() == 0, "evals": evals.Load(), "answered": answered.Load(), "failed": failed.Load()}
+	if wrong.Load() > 0 {
+		res["why"] = "an evaluation gave another answer than the script specifies"
 	}
 	e.emit(res)
 }
